@@ -21,7 +21,7 @@ import (
 // served; refused connections see EOF and not a single byte.
 
 type c13Case struct {
-	Peers string `json:"peers"` // P1 | P1-local | P1-passive | P1+P2
+	Peers string `json:"peers"` // P1 | P1-local | P1-passive | P1-passive-local | P1+P2
 	State string `json:"state"` // state of P1 when the test connection arrives
 	From  string `json:"from"`  // A (P1) | B (P2) | C (unconfigured) | V6
 	To    string `json:"to"`    // X (10.0.0.1, P1's local address) | Y (10.0.0.5) | W (wildcard listener, 10.0.0.7)
@@ -67,7 +67,7 @@ func c13Expect(cs c13Case) (admitted bool, why string) {
 		}
 		return true, "P2 is configured, has no local address and no connection yet"
 	}
-	if cs.Peers == "P1-local" && cs.To != "X" {
+	if c13Local(cs.Peers) && cs.To != "X" {
 		return false, "destination differs from the peer's configured local address"
 	}
 	switch cs.State {
@@ -81,8 +81,11 @@ func c13Expect(cs c13Case) (admitted bool, why string) {
 	return true, "configured peer, acceptable destination, no inbound connection / Established session / hold-down"
 }
 
+func c13Passive(peers string) bool { return strings.Contains(peers, "passive") }
+func c13Local(peers string) bool   { return strings.Contains(peers, "local") }
+
 func c13Applicable(cs c13Case) bool {
-	if cs.Peers == "P1-passive" {
+	if c13Passive(cs.Peers) {
 		switch cs.State {
 		case "idle-wait", "connect-stalled", "est-out", "out-opensent", "out-openconfirm":
 			return false
@@ -101,10 +104,10 @@ func c13Run(cs c13Case, ch vrt.Chooser, trace bool) (*world.World, *vrt.Exec, *c
 		w.NewServer(libIP)
 		pl := &world.Plugin{W: w, Peer: "P1", Marker: true, NoYield: ch == nil}
 		opts := []corebgp.PeerOption{corebgp.WithDialerControl(w.DialControl("P1"))}
-		switch cs.Peers {
-		case "P1-local":
+		if c13Local(cs.Peers) {
 			opts = append(opts, corebgp.WithLocalAddress(netip.MustParseAddr("10.0.0.1")))
-		case "P1-passive":
+		}
+		if c13Passive(cs.Peers) {
 			opts = append(opts, corebgp.WithPassive())
 		}
 		w.NW.OnDial(remAddr, func(att int, from *net.TCPAddr) vnet.DialOutcome {
@@ -222,7 +225,7 @@ func c13Run(cs c13Case, ch vrt.Chooser, trace bool) (*world.World, *vrt.Exec, *c
 				r.Drain()
 			})
 		case "held-down":
-			if cs.Peers == "P1-passive" {
+			if c13Passive(cs.Peers) {
 				inbound(func(r *world.Remote) {
 					if _, ok := r.Expect(wire.TypeOpen); ok {
 						r.Send(wire.Open(64999, 90, 0x0a000002))
@@ -388,7 +391,7 @@ func c13Judge(cs c13Case, w *world.World, e *vrt.Exec, o *c13Obs) (string, strin
 
 func c13Cases() []c13Case {
 	var out []c13Case
-	for _, peers := range []string{"P1", "P1-local", "P1-passive", "P1+P2"} {
+	for _, peers := range []string{"P1", "P1-local", "P1-passive", "P1-passive-local", "P1+P2"} {
 		for _, st := range c13States {
 			for _, from := range []string{"A", "B", "C", "V6"} {
 				for _, to := range []string{"X", "Y", "W"} {
@@ -563,7 +566,7 @@ func c13Check(c *harness.Ctx) {
 		if !(cs.From == "A" && cs.To == "X" || cs.From == "C" && cs.To == "W" && cs.Peers == "P1") || cs.WildOnly {
 			continue
 		}
-		if !c.Thorough() && cs.Peers == "P1-local" {
+		if !c.Thorough() && c13Local(cs.Peers) {
 			continue
 		}
 		k++
@@ -586,7 +589,7 @@ func c13Check(c *harness.Ctx) {
 func init() {
 	harness.Register(&harness.Check{
 		Property: "C13", Level: "exploration", NeedsConc: true, QuickS: 200, ThoroughS: 1200,
-		Rule:   "complete grid of peer sets {P1, P1 with local address, P1 passive, P1+P2} x state of P1 at arrival {fresh, idle-wait, stalled connect, inbound OpenSent, inbound OpenConfirm, Established via inbound, Established via outbound, outbound OpenSent, outbound OpenConfirm, held down} x source {P1, P2, unconfigured, IPv6} x destination {P1's local address, another address, wildcard listener}: each cell one run of the real server over the virtual network (three listeners), judged against the admission predicate (OPEN received vs EOF with zero bytes, no callback, existing session still delivers a probe); plus all schedules within the delay bound (1 quick / 2 thorough) for the cells with the configured source; plus a single wildcard listener with an earlier connection from an unconfigured source, bursts of 2-3 simultaneous connections, and a connection that arrives while the peer is being deleted (it must not stay open); all cells non-trivial and distinct",
+		Rule:   "complete grid of peer sets {P1, P1 with local address, P1 passive, P1 passive with local address, P1+P2} x state of P1 at arrival {fresh, idle-wait, stalled connect, inbound OpenSent, inbound OpenConfirm, Established via inbound, Established via outbound, outbound OpenSent, outbound OpenConfirm, held down} x source {P1, P2, unconfigured, IPv6} x destination {P1's local address, another address, wildcard listener}: each cell one run of the real server over the virtual network (three listeners), judged against the admission predicate (OPEN received vs EOF with zero bytes, no callback, existing session still delivers a probe); plus all schedules within the delay bound (1 quick / 2 thorough) for the cells with the configured source; plus a single wildcard listener with an earlier connection from an unconfigured source, bursts of 2-3 simultaneous connections, and a connection that arrives while the peer is being deleted (it must not stay open); all cells non-trivial and distinct",
 		Assume: []string{"virtual network with real net.TCPAddr endpoints (A3)", "default schedule for the grid"},
 		Run:    c13Check,
 		Replay: func(c *harness.Ctx, raw json.RawMessage) {
